@@ -105,3 +105,11 @@ META["C16"] = dict(
     note="Trusts the graphsync double (FakeGS) and the recording EventsHandler; callbacks are fired sequentially here, concurrently in the C20 stress.",
     technique="runtime monitoring: expected-multiset oracle per fired callback over the recorded EventsHandler log + hook-based structural invariants",
 )
+
+META["C08"] = dict(
+    text=("Held on K generated (block sizes, limit schedule, reopen points, direction) tuples: the real pause decisions equal those of a running-sum model at every report, "
+          "including exact-boundary sizes and re-validation limits at progress-1/progress/progress+1, at the channels API and through the real manager."),
+    design_ref="DESIGN.md §2 C08",
+    note="Trusts the running-sum model (10 lines) and the recording transport/network doubles.",
+    technique="runtime monitoring: reference-model oracle on the return value of every block report + recorded transport/network calls for re-validation outcomes",
+)
